@@ -423,8 +423,8 @@ def snapshot(Ain):
 def same_as_snapshot(Ain, snap):
     if isinstance(Ain, np.ndarray):
         return Ain.dtype == snap[0].dtype and exact_equal(Ain, snap[0])
-    return (Ain.data.dtype == snap[0].dtype and exact_equal(Ain.data, snap[0]) and exact_equal(Ain.indices, snap[1])
-            and exact_equal(Ain.indptr, snap[2]) and exact_equal(np.array(Ain.shape), snap[3]))
+    now = snapshot(Ain)
+    return len(now) == len(snap) and now[0].dtype == snap[0].dtype and all(exact_equal(a_, b_) for a_, b_ in zip(now, snap))
 
 
 # ----------------------------------------------------------------------------------------------------------------
